@@ -228,6 +228,9 @@ func walkInvariants(spec *core.Spec, cs walkCase, o walkObs) (string, string) {
 	}
 	// (f) equality with the reference walk
 	rw, ok := cs.Spec.Walk(cs.Node, cs.Bs, cs.Msgs, cs.Limit, cs.Bp)
+	if cs.CtxEnded && w.StoppedBecause != core.Done {
+		ok = false // a walk that stops early for a caller who has gone away, and says so, has accounted for everything
+	}
 	if ok {
 		if rw.Stopped != w.StoppedBecause.String() {
 			return "stop-reason", fmt.Sprintf("stopped %s; reference %s", w.StoppedBecause, rw.Stopped)
@@ -304,9 +307,34 @@ func splitDifferential(c *vh.Ctx, spec *core.Spec, cs walkCase, whole walkObs) {
 	}
 }
 
+// nativeOnly: no script anywhere in the specification (a script under an ended context is interrupted at a moment
+// nobody controls).
+func nativeOnly(as *rstep.ASpec) bool {
+	for _, n := range as.Nodes {
+		if n.Action != nil && !n.Action.Native {
+			return false
+		}
+		for _, b := range n.Branches {
+			if b.Guard != nil && !b.Guard.Native {
+				return false
+			}
+		}
+	}
+	return true
+}
+
+func walkOnce(spec *core.Spec, cs walkCase) walkObs {
+	if cs.CtxEnded {
+		ctx, cancel := context.WithCancel(context.Background())
+		cancel()
+		return doWalkCtx(ctx, spec, cs.Node, cs.Bs, cs.Msgs, cs.Limit, cs.Bp)
+	}
+	return doWalk(spec, cs.Node, cs.Bs, cs.Msgs, cs.Limit, cs.Bp)
+}
+
 func checkWalk(c *vh.Ctx, spec *core.Spec, cs walkCase) walkObs {
 	c.Eval()
-	o := doWalk(spec, cs.Node, cs.Bs, cs.Msgs, cs.Limit, cs.Bp)
+	o := walkOnce(spec, cs)
 	if !o.Panicked && o.Err == nil {
 		c.R.Transitions += int64(len(o.W.Strides))
 		if len(o.W.Strides) > 1 {
@@ -315,7 +343,7 @@ func checkWalk(c *vh.Ctx, spec *core.Spec, cs walkCase) walkObs {
 		c.Outcome("stop", o.W.StoppedBecause.String())
 	}
 	if clause, detail := walkInvariants(spec, cs, o); clause != "" {
-		o2 := doWalk(spec, cs.Node, cs.Bs, cs.Msgs, cs.Limit, cs.Bp)
+		o2 := walkOnce(spec, cs)
 		if c2, _ := walkInvariants(spec, cs, o2); c2 != clause {
 			c.Count("unreproduced", 1)
 			c.NotExhaustive("a violation did not reproduce on re-execution; not reported")
@@ -394,7 +422,7 @@ func C05(c *vh.Ctx) {
 	c.Bound("nodes", 3)
 	c.Bound("message_sequence_max", maxLen)
 	c.Bound("limits", limits)
-	c.Rule("all assignments of node templates (message / bindings / action nodes incl. failing, stuck and cyclic ones, message nodes whose guard throws, native and ECMAScript; specs that can fail also with an error node that listens and recovers) to 3 nodes x 3 start states x all message sequences up to the bound over 3 messages x limits x breakpoints (none, at n1, at n2) x every split into consecutive batches; a family of specifications whose branch patterns use inequality variables bound in the machine's state next to other properties and guards; for every n-th spec also one batch of 700 messages under limits around and beyond a thousand steps; invariants (a)-(g) of DESIGN 6/C05 on every Walked, plus equality with the reference walk. states = specs explored, transitions = strides executed; non-trivial = walk with more than one stride.")
+	c.Rule("all assignments of node templates (message / bindings / action nodes incl. failing, stuck and cyclic ones, message nodes whose guard throws, native and ECMAScript; specs that can fail also with an error node that listens and recovers) to 3 nodes x 3 start states x all message sequences up to the bound over 3 messages x limits x breakpoints (none, at n1, at n2) x every split into consecutive batches; a family of specifications whose branch patterns use inequality variables bound in the machine's state next to other properties and guards; for every n-th spec also one batch of 700 messages under limits around and beyond a thousand steps; invariants (a)-(g) of DESIGN 6/C05 on every Walked, plus equality with the reference walk; script-free specifications also under a context that has already ended (the account must be truthful, and a walk that says Done must have done what the reference does). states = specs explored, transitions = strides executed; non-trivial = walk with more than one stride.")
 	all := seqs(maxLen)
 	// long walks: one batch of several hundred messages (and cyclic specs) under limits around and far beyond a
 	// thousand steps - what holds for six strides has to hold for six thousand
@@ -485,6 +513,13 @@ func C05(c *vh.Ctx) {
 						c.R.Traces++
 						if lim == 100 && bp == "" && len(sq) >= 2 {
 							splitDifferential(c, spec, cs, o)
+						}
+						if lim == 100 && bp == "" && len(sq) >= 1 && nativeOnly(as) {
+							// the caller's context has ended (native actions do not look at it): whatever Walk makes of
+							// that, its account is truthful - and if it says Done, everything was done
+							cs2 := cs
+							cs2.CtxEnded = true
+							checkWalk(c, spec, cs2)
 						}
 						if c.WantSample() && len(sq) == 3 && lim == 100 && !o.Panicked && o.W != nil && len(o.W.Strides) > 4 {
 							c.Sample(cs)
